@@ -22,6 +22,10 @@ def apply_op(svg, op):
             r = svg.round_floats(int(t[1]))
         elif t[0] == "topicosvg":
             r = svg.topicosvg(ndigits=int(t[1]), allow_text=t[2] == "1", drop_unsupported=t[3] == "1")
+        elif t[0] == "set_attributes":
+            r = svg.set_attributes(tuple(tuple(kv.split("=", 1)) for kv in t[1:]))
+        elif t[0] == "remove_attributes":
+            r = svg.remove_attributes(tuple(t[1:]))
         else:
             r = getattr(svg, t[0])()
         return r, r
@@ -37,6 +41,14 @@ def apply_op1(svg, op):
         return svg.topicosvg(ndigits=int(t[1]), allow_text=t[2] == "1", drop_unsupported=t[3] == "1", inplace=True)
     if t[0] == "checkpicosvg":
         return svg.checkpicosvg(allow_text=t[1] == "1", drop_unsupported=t[2] == "1")
+    if t[0] == "set_attributes":
+        return svg.set_attributes(tuple(tuple(kv.split("=", 1)) for kv in t[1:]), inplace=True)
+    if t[0] == "remove_attributes":
+        return svg.remove_attributes(tuple(t[1:]), inplace=True)
+    if t[0] == "bounding_box":
+        return svg.bounding_box()
+    if t[0] == "view_box":
+        return svg.view_box()
     if t[0] == "tostring":
         return svg.tostring()
     if t[0] == "shapes":
@@ -71,6 +83,8 @@ class Run:
                         self.extras.append("\x1d".join(r))
                     elif op.startswith("resolve_nested_svgs"):
                         self.extras.append("self" if r is prev else "None")
+                    elif op in ("bounding_box", "view_box"):
+                        self.extras.append("None" if r is None else " ".join(common.hexf(float(v)) for v in (r.x, r.y, r.w, r.h)))
                     else:
                         self.extras.append("")
                 self.out_wire = treewire.encode(svg.toetree())
@@ -111,6 +125,8 @@ class Run:
                 return "checkpicosvg reports differ: %r vs %r" % (x, y)
             if op.startswith("resolve_nested_svgs") and x != y:
                 return "resolve_nested_svgs(inplace=True) returned %s, model %s" % (x, y)
+            if op in ("bounding_box", "view_box") and x.lower() != y.lower():
+                return "%s() returned %s, model %s" % (op, x, y)
         return None
 
 
@@ -138,7 +154,7 @@ FEATURE_SETS = {
     "gradients": dict(gradients=True, transforms=True, use=True),
     "cascade": dict(use=True, root_attrs=True, styles=True, opacity=True, display=True, strokes=True),
     "noise": dict(noise=True, use=True, clips=True, gradients=True),
-    "hostile": dict(unsupported=True, text=True, degenerate=True, noise=True, use=True),
+    "hostile": dict(unsupported=True, text=True, degenerate=True, noise=True, use=True, gradients=True),
     "all": dict(use=True, nested_svg=True, clips=True, strokes=True, gradients=True, display=True, noise=True, root_attrs=True, degenerate=True),
 }
 
